@@ -37,9 +37,9 @@ ASSUMPTIONS = [
 ]
 FLOORS = {"quick": {"judged": 25000, "expect_accept": 10000,
                     "expect_reject": 8000},
-          "thorough": {"judged": 250000, "expect_accept": 100000,
-                       "expect_reject": 80000}}
-N_MODELS = {"quick": 1500, "thorough": 12000}
+          "thorough": {"judged": 900000, "expect_accept": 400000,
+                       "expect_reject": 300000}}
+N_MODELS = {"quick": 1500, "thorough": 50000}
 TEXTS = {"quick": 20, "thorough": 36}
 
 
